@@ -164,6 +164,12 @@ pub fn inputs_of_base(plan: &Plan, b: u64, corpus: &[(String, Vec<u8>)]) -> Vec<
                 if hostile::MODEL_OPS[op] == "nested_groups" && (b % 8 != 0 || r > 0) {
                     continue; // expensive input: one in eight bases
                 }
+                if hostile::MODEL_OPS[op] == "tileset_strip_height_u32" && (!thorough || r > 0 || b != 3 || plan.mode != Mode::Walk) {
+                    continue; // 4 GiB of pixel data: once per thorough run, where accessors are walked
+                }
+                if hostile::MODEL_OPS[op] == "tilemap_extent_i32" && (r > 0 || b % 32 != 3 || plan.mode == Mode::Mem || plan.mode == Mode::Load) {
+                    continue; // ~2 x 10^9 loop iterations per rendering: one base in thirty-two, only where images are rendered
+                }
                 if hostile::MODEL_OPS[op] == "sparse_cel_table" {
                     // expensive, and only meaningful for the memory monitor: table sizes 750..7500 (quick) / up to 8000 (thorough)
                     if plan.mode != Mode::Mem || r > 0 || b % 16 != 0 {
@@ -185,7 +191,7 @@ pub fn inputs_of_base(plan: &Plan, b: u64, corpus: &[(String, Vec<u8>)]) -> Vec<
         out.extend(hostile::unstructured_inputs(&base, &mut rng, if thorough { 240 } else { 80 }));
     }
     // size cap of the exploration (deep nests are exempt up to 2 MiB)
-    out.retain(|i| i.bytes.len() <= plan.size_cap || ((i.operator == "model:nested_groups" || i.operator == "model:sparse_cel_table") && i.bytes.len() <= 2 * 1024 * 1024));
+    out.retain(|i| i.bytes.len() <= plan.size_cap || ((i.operator == "model:nested_groups" || i.operator == "model:sparse_cel_table") && i.bytes.len() <= 2 * 1024 * 1024) || (i.operator == "model:tileset_strip_height_u32" && i.bytes.len() <= 16 * 1024 * 1024));
     out
 }
 
@@ -392,7 +398,8 @@ pub fn worker_main(ctx: &Ctx, a: WorkerArgs) -> i32 {
                 let start = if first_base { a.resume_sub } else { 0 };
                 first_base = false;
                 for (s, input) in inputs.iter().enumerate().skip(start as usize) {
-                    if sub_sample > 1 && s != 0 && (s as u64 + b) % sub_sample != 0 {
+                    if sub_sample > 1 && s != 0 && ((s as u64 + b) % sub_sample != 0 || input.operator == "model:tilemap_extent_i32" || input.operator == "model:tileset_strip_height_u32") {
+                        // (the unoptimised build needs minutes per rendering of a 2^31-pixel tilemap extent)
                         continue;
                     }
                     {
